@@ -10,6 +10,14 @@ TRUST = ("Trusted: the harness's executable reference models; imbl, tokio::sync:
 
 CHECKS = {
  # id: (engine, category, text, technique, design_ref)
+ "C01": ("obs", "exploration", "Runtime monitor: call histories on the real Observable/SharedObservable (incl. write guards, read guards, clones, into_shared) are compared call by call with a version-counter model; payload type whose hash ignores one field separates equality from hash; exhaustive d<=4 (quick) / d<=5 (thorough) over a ~35-operation state-dependent alphabet for both observable kinds, random histories of 60-300 calls with <=5 subscribers.", "runtime monitoring: history + executable reference model", "5/C01"),
+ "C02": ("obs+thr", "exploration", "Three monitors: (a) after every single operation of a sequential history every Pending subscriber's waker must have been woken if an update/close happened since (exhaustive d<=6 / 7, random); (b) director-forced schedules at the __verif pause points and at the clone of the supplied waker, 7 scenarios, all orders, verdict at join from poll results and wake flags; (c) free-running writer/subscriber threads with hook-injected yields and a timing-free quiescence oracle. The thread parts also run under ThreadSanitizer (thorough) and Miri (thorough).", "runtime monitoring: wake-obligation invariant + forced schedules + stress with quiescence oracle; TSan/Miri", "5/C02"),
+ "C03": ("obs+thr", "exploration", "(a) owner-count model over clone/drop/downgrade/upgrade/into_shared/subscribe/poll histories (exhaustive d<=6 / 7, random); (b) director scenarios: two/three threads dropping the last clones, last drop || upgrade, drop || upgrade || poll - every order at sdrop:enter/decided, upgrade:between, close:*, poll:*; verdict at join: subscribers ended iff no handle left; (c) free-running rounds. Thread parts also under TSan/Miri in the thorough tier.", "runtime monitoring: reference model + forced schedules at the decision/release window", "5/C03"),
+ "C04": ("thr", "exploration", "Offline checkers over recorded histories of 2-4 real threads: unique-valued register (exact order reconstructed from returned predecessors; real-time order; stale/early reads), contended conditional setters (never store an equal value; conservation of previous values), append-only list (no lost closure, prefix reads within completed/invoked bounds, subscribers monotone and handed the final value), guard exclusion; plus the value-lock exclusion invariant evaluated by the director in every forced schedule. Thorough tier repeats the workloads under ThreadSanitizer and Miri (many seeds).", "runtime monitoring: linearizability checking of recorded histories (unique values / append-only list), lock-exclusion invariant; TSan/Miri", "5/C04"),
+ "C16": ("obs+thr", "exploration", "Differential: every C01/C02a/C03a history also runs on the async-lock flavour with a hand-rolled executor, judged by the same model and compared call by call with the sync run; randomised guard scripts (write guard held across subscriber polls, read guard held while writers wait: waiting writer woken on release, subscriber ready after the guard is dropped, lock free afterwards); multi-thread register workload on the async SharedObservable with park/unpark executors and the C04 checker.", "runtime monitoring: differential execution against the sync flavour + scripted guard oracles + recorded-history checker", "5/C16"),
+ "C18": ("misc", "exploration", "Exhaustive small-scope execution: vectors of length 0..4 (6 thorough) x all eleven diff kinds x all indices/lengths 0..len+1 x payload sizes 0..3 x four mappings; apply compared with a Vec model, panics caught and compared with the documented condition, map/apply commutation and identity mapping checked; random vectors up to length 200.", "runtime monitoring: exhaustive execution against an executable model", "5/C18"),
+ "C19": ("obs", "exploration", "Integer-counter model: after every single operation of clone/subscribe/subscriber-clone/downgrade/upgrade/weak-clone/into_shared/drop histories all four counts of every live handle are compared, for both lock flavours; exhaustive d<=6 (quick) / d<=7 (thorough), random beyond.", "runtime monitoring: invariant (counts == model) at every quiescent point", "5/C19"),
+ "C20": ("all", "exploration", "Instrumented element type (construction/clone/drop table keyed by instance id) under bulk random histories of the vector, adapter and observable engines: no double drop, no use after drop, nothing alive at the end. Because a double drop that is real UB cannot be trusted to show in an in-process table, the verdict also needs the sanitizer passes: Miri (tree borrows, leak check) over small shards in the quick tier, more Miri plus an ASan/LSan build of the bulk run in the thorough tier.", "runtime monitoring: drop-accounting monitor + Miri + AddressSanitizer/LeakSanitizer", "5/C20"),
  "C05": ("vec", "exploration", "Runtime monitor: every history is executed on the real ObservableVector; a reference batched subscriber polled after every mutating call gives the message boundaries, every other subscriber's items are compared with the undelivered messages and replayed through a checked replica. Exhaustive for short sequences over all mutators/indices, seeded random beyond. Held-on-what-was-observed, not a proof.", "runtime monitoring: history + executable reference model (replica replay)", "5/C05"),
  "C06": ("vec", "exploration", "Runtime monitor with an undelivered-message counter per subscriber: Reset only beyond capacity, Reset carries the current contents, replica == contents at every Pending, every diff applicable, each batched item brings the replica up to date; capacities 1,2,3,5,6,16,1000; exhaustive over a 7-step alphabet for capacities 1-3. A run that delivered no Reset is INCONCLUSIVE.", "runtime monitoring: history + reference model with lag accounting", "5/C06"),
  "C07": ("vec", "fault_enumeration", "Every transaction body (closed under prefixes = every abandon point) x every way of ending it (commit, drop, rollback+drop, rollback+more+commit/drop) is executed on the real code, with 0/1/3 subscribers and capacities 1,2,16; contents, handle view, published messages and wakers are compared with the model after every step.", "runtime monitoring: fault (abandon-point) enumeration against a plain-Vec model", "5/C07"),
@@ -55,6 +63,9 @@ m = {
  },
  "engines": [
   {"name": "vec", "path": "harness/src/engine_vec.rs", "serves_properties": ["C05","C06","C07","C08","C17","C20"], "kind_free_text": "sequential history executor + monitors on the real ObservableVector<Tracked>"},
+  {"name": "obs", "path": "harness/src/engine_obs.rs", "serves_properties": ["C01","C02","C03","C16","C19","C20"], "kind_free_text": "sequential Observable/SharedObservable executor for both lock flavours with a version/owner/count model"},
+  {"name": "thr", "path": "harness/src/engine_thr.rs", "serves_properties": ["C02","C03","C04","C16"], "kind_free_text": "thread director forcing schedules at the __verif pause points; free-running rounds with injected yields; offline history checkers"},
+  {"name": "misc", "path": "harness/src/runners_misc.rs", "serves_properties": ["C18","C20"], "kind_free_text": "exhaustive diff map/apply execution; bulk drop-accounting runs"},
   {"name": "adp", "path": "harness/src/engine_adp.rs", "serves_properties": ["C09","C10","C11","C12","C13","C14","C15","C20"], "kind_free_text": "adapter/chain executor with transparent taps, event log and per-stage oracles"},
  ],
  "checks": checks,
